@@ -56,6 +56,12 @@ def analyse(prop: str, repo: Repo) -> Collector:
         return col
     for rule, n in col.floors.items():
         have = col.count(rule)
+        if have < n and col.failures():
+            # fewer instances than confirmed by hand, but some of those examined already fail: the failures stand (a violation decided
+            # before the analysis lost track is still a violation), the run is marked incomplete
+            col.incomplete = (f"count floor missed: rule {rule} examined {have} instances, at least {n} were confirmed by hand on the reference tree")
+            col.notes.append(f"analysis incomplete: {col.incomplete}")
+            break
         if have < n:
             raise AnalysisError(
                 f"count floor missed: rule {rule} examined {have} instances, at least {n} were "
